@@ -186,6 +186,20 @@ def r_local_only(ck: Checker) -> None:
             ck.guard(f"{name}: only a local variable is substituted", func, call, f"{var} not in {glob}",
                      "a global variable links the condition to the rest of the rule: inlining `X = Y+1` with global X inside `r(Y) : s(Y), X = Y+1` drops the link")
             ck.guard(f"{name}: only for a found equality", func, call, f"{unparse(call.args[1]).split('[')[0] if False else '_equality(' + 'c' + ')'} is not None", "")
+        if name == "inline_aggregate":
+            outer = [lp for lp in find_nodes(func.node, lambda n: isinstance(n, ast.For)) if enclosing_loop(func, lp) is None]
+            ck.need(len(outer) >= 1 and isinstance(outer[0].target, ast.Name), "inline_aggregate searches the elements for an equality")
+            elem = outer[0].target.id  # type: ignore[union-attr]
+            for call in calls:
+                src = {t for t in it.texts(call, call.args[0])}
+                ok_src = all(re.search(rf"\b{elem}\.(condition|terms)\b", t) and not re.search(r"\b(?!%s\b)\w+\.(condition|terms)\b" % elem, t) for t in src) and bool(src)
+                ck.add("inline_aggregate: the substitution is applied to the element that contains the equality", ok_src, func, call, f"substitutes in {sorted(src)}; the equality was found in `{elem}`",
+                       "variables of aggregate elements are local to their element: a sibling element that happens to use the same name must not be rewritten")
+            ups = [c for c in attr_calls(func, "update") if kwarg(c, "condition") is not None and kwarg(c, "terms") is not None]
+            ck.need(len(ups) == 1, "the rewritten element is built at one site")
+            recv = unparse(ups[0].func.value)  # type: ignore[attr-defined]
+            same_elem = it.holds(ups[0], f"{recv} == {elem}")
+            ck.add("inline_aggregate: only that element is replaced", same_elem, func, ups[0], f"`{short(unparse(ups[0]), 80)}` dominated by `{recv} == {elem}`: {same_elem}", "all other elements are copied unchanged")
         cf = ck.func(f"normalize:{caller}")
         ccalls = resolved_calls(ck.prg, cf, f"ngo.normalize:{name}", into_nested=True)
         ck.need(len(ccalls) == 1, f"{caller} calls {name}")
